@@ -113,3 +113,70 @@ Proof.
   - right. left. vm_compute. reflexivity.
   - intros a [<-|[]]. vm_compute. reflexivity.
 Qed.
+
+(* ---- an address moves to another interface within one IP check ----------------------------------- *)
+(* eth0 has only w_v6; between two IP checks the address moves to eth1.  The check withdraws it
+   (IpDel) and then adds it again (IpAdd), the service with automatic addresses keeps it and is
+   announced with it on eth1; the checker accepts this order and rejects the reverse one *)
+Definition e_eth1_v6m : iface := mkIface (b "eth1") 3 (mkIfAddr w_v6 mask64).
+Definition os_mv : list iface := [e_eth0_v6; e_eth1_v4].
+Definition h_moved : list step :=
+  [ mkStep t0 None [] [CSetInterval 1; CRegister (c18_svc "Auto" []) true];
+    mkStep (t0 + 5100) (Some [e_eth1_v4; e_eth1_v6m]) [] [];                  (* the first IP check is at t0 + 5000 *)
+    mkStep (t0 + 6200) None [] [] ].
+
+Definition ip_events (a : ip) (l : list obs) : list obs :=
+  List.filter (fun o => match o with OIpAdd x => ip_eqb x a | OIpDel x => ip_eqb x a | _ => false end) l.
+Definition carries (a : ip) (o : obs) : bool :=
+  match o with
+  | OSent p => existsb (fun r => match r_data r with RAddr oc => ip_eqb (ip_of_octets oc) a | _ => false end)
+                       (p_answers p ++ p_additionals p)
+  | _ => false
+  end.
+Definition swap_second (h : list (step * list obs)) : list (step * list obs) :=
+  match h with x :: (s, os) :: t => x :: (s, List.rev os) :: t | _ => h end.
+
+Lemma h_moved_checked :
+  chk_C18 os_mv (model_history t0 os_mv h_moved) = true /\
+  ip_events w_v6 (List.nth 1 (run (initial_state t0 os_mv) h_moved) []) = [OIpDel w_v6; OIpAdd w_v6] /\
+  existsb (carries w_v6) (List.nth 2 (run (initial_state t0 os_mv) h_moved) []) = true /\
+  chk_C18 os_mv (swap_second (model_history t0 os_mv h_moved)) = false.
+Proof. repeat split; vm_compute; reflexivity. Qed.
+
+(* ---- a one-family interface learns both families, then it is disabled ----------------------------- *)
+(* eth0 has only an IPv4 address.  The announcement of Peer0 that arrives there over IPv4 carries
+   the peer's A and AAAA records; both are attributed to eth0 and reported.  After
+   disable_interface("eth0") a fresh browse finds the instance (PTR, SRV, TXT stay) but reports no
+   address; the checker rejects a trace in which the addresses learned on eth0 are reported again *)
+Definition w_cross : bytes :=
+  [0; 0; 132; 0; 0; 0; 0; 5; 0; 0; 0; 0; 5; 95; 112; 101; 101; 114; 4; 95; 117; 100; 112; 5; 108; 111; 99; 97; 108; 0;
+   0; 12; 0; 1; 0; 0; 17; 148; 0; 8; 5; 80; 101; 101; 114; 48; 192; 12; 192; 40; 0; 33; 128; 1; 0; 0; 17; 148; 0; 18;
+   0; 0; 0; 0; 27; 88; 9; 112; 101; 101; 114; 104; 111; 115; 116; 48; 192; 23; 192; 40; 0; 16; 128; 1; 0; 0; 17; 148;
+   0; 4; 3; 97; 61; 98; 192; 66; 0; 1; 128; 1; 0; 0; 17; 148; 0; 4; 198; 18; 2; 60; 192; 66; 0; 28; 128; 1; 0; 0; 17;
+   148; 0; 16; 253; 153; 0; 2; 0; 0; 0; 0; 0; 0; 0; 0; 0; 0; 6; 0].
+Definition peer_ty : bytes := b "_peer._udp.local.".
+Definition os_x : list iface := [e_eth0_v4; e_eth1_v4].
+Definition h_xfam : list step :=
+  [ mkStep t0 None [] [CBrowse peer_ty];
+    mkStep (t0 + 100) None [mkDgram 2 (ip4 198 18 2 60) 5353 w_cross] [];
+    mkStep (t0 + 200) None [] [CDisable [KName (b "eth0")]];
+    mkStep (t0 + 300) None [] [CBrowse peer_ty] ].
+
+Definition resolved_addrs (l : list obs) : list (list (ip * N)) :=
+  flat_map (fun o => match o with OResolved _ _ _ _ a => [a] | _ => [] end) l.
+Definition founds (l : list obs) : nat :=
+  List.length (List.filter (fun o => match o with OFound _ _ => true | _ => false end) l).
+(* the trace in which the last browse reports what the first announcement reported *)
+Definition stale_report (h : list (step * list obs)) : list (step * list obs) :=
+  match h with
+  | x0 :: (s1, o1) :: x2 :: (s3, o3) :: t => x0 :: (s1, o1) :: x2 :: (s3, o3 ++ List.filter (fun o => match o with OResolved _ _ _ _ _ => true | _ => false end) o1) :: t
+  | _ => h
+  end.
+
+Lemma h_xfam_checked :
+  let r := run (initial_state t0 os_x) h_xfam in
+  chk_C18 os_x (model_history t0 os_x h_xfam) = true /\
+  resolved_addrs (List.nth 1 r []) = [[(V6 (n_of_octets [253; 153; 0; 2; 0; 0; 0; 0; 0; 0; 0; 0; 0; 0; 6; 0]), 2); (ip4 198 18 2 60, 2)]] /\
+  founds (List.nth 3 r []) = 1%nat /\ resolved_addrs (List.nth 3 r []) = [] /\
+  chk_C18 os_x (stale_report (model_history t0 os_x h_xfam)) = false.
+Proof. repeat split; vm_compute; reflexivity. Qed.
